@@ -123,7 +123,8 @@ _c14_wit = ['compile_probes_reported', 'apply_operation_run',
             'assign_switches_alternative', 'copy_construct', 'deep_copy_poked', 'shallow_view_poked', 'equal_images_compared',
             'form_AA', 'form_AC', 'form_CA', 'form_MA', 'form_XA', 'form_AX', 'bad_cast_thrown', 'destination_written_and_equal',
             'pairs_compatible_distinct_types', 'pairs_incompatible', 'pairs_converting', 'pairs_copying', 'result_0', 'result_1',
-            'fill_written_and_equal', 'fill_view_r180', 'fill_view_sub', 'foreach_mutated_and_equal', 'foreach_order_sensitive']
+            'fill_written_and_equal', 'fill_view_r180', 'fill_view_sub', 'foreach_mutated_and_equal', 'foreach_order_sensitive',
+            'resample_pixels_maps', 'resize_view_run', 'resample_subimage_run', 'assign_from_other_type_list']
 if 'NO_TRANSPOSED' not in _c14_broken: _c14_wit += ['op_transposed', 'transposed_view_compiles']
 if 'NO_NTH' not in _c14_broken: _c14_wit += ['op_nth_channel', 'nth_channel_view_compiles']
 if 'NO_ANYCC' not in _c14_broken: _c14_wit += ['any_color_converted_view_run']
@@ -177,8 +178,8 @@ CHECKS['C14'] = dict(
                dict(tu='c14_resample', group='resample_bl', bounds=dict(dstall=0), shards=3)],
         thorough=[dict(tu='c14_api', group='api', shards=1),
                   dict(tu='c14_api_w', group='api', shards=1),
-                  dict(tu='c14_views_c', group='views', bounds=dict(S=3, depth=4, SS=3, subfull=1), shards=8),
-                  dict(tu='c14_views_m', group='views', bounds=dict(S=3, depth=4, SS=3, subfull=1), shards=8),
+                  dict(tu='c14_views_c', group='views', bounds=dict(S=3, depth=5, SS=3, subfull=1), shards=10),
+                  dict(tu='c14_views_m', group='views', bounds=dict(S=3, depth=5, SS=3, subfull=1), shards=10),
                   dict(tu='c14_views_cw', group='views', bounds=dict(S=3, depth=4, SS=3, subfull=1), shards=12),
                   dict(tu='c14_views_mw', group='views', bounds=dict(S=3, depth=4, SS=3, subfull=1), shards=12),
                   dict(tu='c14_image', group='image', bounds=dict(S=3), shards=5),
